@@ -3,7 +3,11 @@
 
 use serde::Deserialize;
 
-use crate::{absent_nullable::AbsentNullable, traits::Serial, Settings, SlinkyError};
+use crate::{
+    absent_nullable::{deserialize_non_null_string, AbsentNullable},
+    traits::Serial,
+    Settings, SlinkyError,
+};
 
 #[derive(Clone, Debug, Eq, PartialEq, Hash, Ord, PartialOrd)]
 pub struct AssertEntry {
@@ -19,7 +23,9 @@ pub struct AssertEntry {
 #[derive(Clone, Debug, Eq, PartialEq, Hash, Ord, PartialOrd, Deserialize)]
 #[serde(deny_unknown_fields)]
 pub(crate) struct AssertEntrySerial {
+    #[serde(deserialize_with = "deserialize_non_null_string")]
     pub check: String,
+    #[serde(deserialize_with = "deserialize_non_null_string")]
     pub error_message: String,
 
     #[serde(default)]
